@@ -360,13 +360,15 @@ func firstLine(s string) string {
 
 func init() {
 	Builders["tt"] = buildTT
-	w := func(h uint64, ply, depth, tag int) ttOp { return ttOp{Op: "W", Hash: h, Ply: ply, Depth: depth, Tag: tag} }
+	w := func(h uint64, ply, depth, tag int) ttOp {
+		return ttOp{Op: "W", Hash: h, Ply: ply, Depth: depth, Tag: tag}
+	}
 	r := func(h uint64) ttOp { return ttOp{Op: "R", Hash: h} }
 	u := ttOp{Op: "U"}
 	Defs["C17"] = &Def{
 		ID:                 "C17",
 		RacesAreViolations: true,
-		Rule:               "harness threads issue Write(tagged payload)/Read/Used on keys forced to collide (same hash; same hash and same bound/ply/depth/move with only the score differing; different hash same slot; 1-, 2- and 4-slot tables; equal/greater/smaller replacement value), with the non-atomic `used++` split into load and store by the rewriter. ALL interleavings of every harness (no bound); thorough adds 3x2-, crossing- and 4-thread harnesses explored to deviation bound 7; a contended-slot harness: one victim store and an adversary whose nine lesser stores and one greater store happen all at once at instants of the explorer's choosing (every retry of a compare-and-swap loop can be made to fail, up to ten times). Oracle per complete interleaving: no data race (every plain field / element access of transposition.go is wrapped by the rewriter and checked against vector clocks that the atomics of the interleaving advance: two accesses to the same byte, one a store, unordered by happens-before = race); each hit returns one single store's tuple for that hash; the call/return history is linearizable w.r.t. the sequential table incl. the replacement rule (brute force over <= 6 calls, every verdict cross-checked against porcupine v1.3.0); fill fraction within [0,1] whenever read and, at quiescence, equal to the number of occupied slots. distinct_nontrivial = distinct call/return histories among executions in which two threads touched a common object",
+		Rule:               "harness threads issue Write(tagged payload)/Read/Used on keys forced to collide (same hash; same hash and same bound/ply/depth/move with only the score differing; the very same result with only the ply differing; different hash same slot; 1-, 2- and 4-slot tables; equal/greater/smaller replacement value), with the non-atomic `used++` split into load and store by the rewriter. ALL interleavings of every harness (no bound); thorough adds 3x2-, crossing- and 4-thread harnesses explored to deviation bound 7; a contended-slot harness: one victim store and an adversary whose nine lesser stores and one greater store happen all at once at instants of the explorer's choosing (every retry of a compare-and-swap loop can be made to fail, up to ten times). Oracle per complete interleaving: no data race (every plain field / element access of transposition.go is wrapped by the rewriter and checked against vector clocks that the atomics of the interleaving advance: two accesses to the same byte, one a store, unordered by happens-before = race); each hit returns one single store's tuple for that hash; the call/return history is linearizable w.r.t. the sequential table incl. the replacement rule (brute force over <= 6 calls, every verdict cross-checked against porcupine v1.3.0); fill fraction within [0,1] whenever read and, at quiescence, equal to the number of occupied slots. distinct_nontrivial = distinct call/return histories among executions in which two threads touched a common object",
 		Gen: func(tier string) []explore.Scenario {
 			ps := []ttParams{
 				{Size: 32, Threads: [][]ttOp{{w(7, 1, 1, 1)}, {w(9, 1, 2, 2)}}},                                // two writers, one slot, second more valuable
@@ -395,6 +397,13 @@ func init() {
 				ttParams{Size: 32, Threads: [][]ttOp{{so(1)}, {so(2)}, {r(7)}}},
 				ttParams{Size: 32, Threads: [][]ttOp{{so(1), so(2)}, {r(7), r(7)}}},
 				ttParams{Size: 32, Threads: [][]ttOp{{so(1), so(2)}, {so(3)}}},
+			)
+			// the very same result stored again with nothing but a later ply (an entry found again later in
+			// the game), next to a store of another position whose value lies between the two
+			same := func(ply int) ttOp { return ttOp{Op: "W", Hash: 7, Ply: ply, Depth: 1, Tag: 1} }
+			ps = append(ps,
+				ttParams{Size: 32, Threads: [][]ttOp{{same(1), same(8)}, {w(9, 3, 1, 2)}, {r(7), r(9)}}},
+				ttParams{Size: 32, Threads: [][]ttOp{{same(1)}, {same(8)}, {w(9, 3, 1, 2), r(7)}}},
 			)
 			// a contended slot: one victim store (value 20) and an adversary with nine lesser stores followed by a
 			// greater one, each placed at an instant of the explorer's choosing - every retry of the
